@@ -562,3 +562,26 @@ pub fn c17(sk: &Skeleton) -> Leaf {
     leaf.ob("C17.text-figures", &vx::and(&tatoms));
     leaf
 }
+
+// ------------------------------------------------------------------------------------------------ C13 (replay side)
+/// Concrete re-evaluation for PEGSMT: opts.texts = [a, b] (and optionally opts.mode = "same" | "same-acceptance").
+/// Runs the REAL parser on both strings; used to replay solver counterexamples and to validate the encoding on the corpus.
+pub fn c13_parse(sk: &Skeleton) -> Leaf {
+    let mut leaf = Leaf { outcome: "ok".into(), ..Default::default() };
+    let texts: Vec<String> = sk.raw["opts"]["texts"].as_array().map(|a| a.iter().map(|x| x.as_str().unwrap_or("").to_string()).collect()).unwrap_or_default();
+    let parsed: Vec<Result<Vec<Transaction>, String>> = texts.iter().map(|t| cgt_core::parser::parse_file(t).map_err(|e| e.to_string())).collect();
+    leaf.extra = json!({"results": parsed.iter().map(|r| match r { Ok(v) => json!({"accepted": true, "transactions": v.len()}), Err(e) => json!({"accepted": false, "error": e.lines().take(4).collect::<Vec<_>>().join(" | ")}) }).collect::<Vec<_>>()});
+    if texts.len() == 2 {
+        let mode = sk.opt_str("mode").unwrap_or_else(|| "same".into());
+        let ok = match (&parsed[0], &parsed[1]) {
+            (Ok(a), Ok(b)) => a == b,
+            (Err(_), Err(_)) => mode == "same-acceptance",
+            (Ok(_), Err(_)) => false,
+            (Err(_), Ok(_)) => mode == "same",
+        };
+        // "same": whenever the first text is accepted, the variant is accepted and parses to the same transactions
+        let ok = if mode == "same" { matches!(&parsed[0], Err(_)) || ok } else { ok };
+        leaf.ob_bool("C13.variant-parses-the-same", ok, &format!("{:?} vs {:?}", texts[0], texts[1]));
+    }
+    leaf
+}
